@@ -33,7 +33,7 @@ EC = [A, None, 0, 1, -1, -32700, 2 ** 70, True, 1.0, 1.5, '1', [], {}, [1]]     
 EM = [A, None, '', 'm', 0, True, [], {}]
 ED = [A, None, 0, '', [], {}, False, 1.5, {'k': [1]}]
 SCALARS = [None, True, False, 0, 1, 1.5, 'x', '', [], [1], {}]
-IDS = [None, 1, 2, '1']
+IDS = [None, 1, 2, '1', '100%']
 
 
 def obj(**kw):
@@ -57,6 +57,21 @@ def parse_cases():
         out.append(('resp', 'MethodNotFoundError', {'jsonrpc': '2.0', 'id': 1, 'error': {'code': c, 'message': 'm'}}))
         out.append(('bresp', 'MethodNotFoundError', {'jsonrpc': '2.0', 'id': None, 'error': {'code': c, 'message': 'm'}}))
         out.append(('bresp', 'MethodNotFoundError', [{'jsonrpc': '2.0', 'id': 1, 'error': {'code': c, 'message': 'm'}}]))
+    # typed base classes that carry a class-level code AND message: a member missing from the document stays missing
+    for base in ('MethodNotFoundError', 'ServerError', 'HarnessAppError'):
+        for e in ({'code': 1}, {'message': 'm'}, {}, {'code': 1, 'message': None}, {'code': None, 'message': 'm'}, {'code': -32000}):
+            out.append(('err', base, e))
+            out.append(('resp', base, {'jsonrpc': '2.0', 'id': 1, 'error': e}))
+            out.append(('bresp', base, {'jsonrpc': '2.0', 'id': None, 'error': e}))
+            out.append(('bresp', base, [{'jsonrpc': '2.0', 'id': 1, 'error': e}]))
+    # received text that contains printf-style directives ends up in the error message, never in a format operation
+    for v in ('2.0%', '%s', '50% off', '%(x)s', '%d'):
+        out.append(('req', 'JsonRpcError', {'jsonrpc': v, 'id': 1, 'method': 'm'}))
+        out.append(('resp', 'JsonRpcError', {'jsonrpc': v, 'id': 1, 'result': 1}))
+        out.append(('bresp', 'JsonRpcError', {'jsonrpc': v, 'id': None, 'error': {'code': 1, 'message': 'm'}}))
+        out.append(('breq', 'JsonRpcError', [{'jsonrpc': '2.0', 'id': v, 'method': 'a'}, {'jsonrpc': '2.0', 'id': v, 'method': 'b'}]))
+        out.append(('bresp', 'JsonRpcError', [{'jsonrpc': '2.0', 'id': v, 'result': 1}, {'jsonrpc': '2.0', 'id': v, 'result': 2}]))
+        out.append(('breq', 'JsonRpcError', [{'jsonrpc': v, 'id': 1, 'method': 'a'}]))
     rq = [{'jsonrpc': '2.0', 'id': 1, 'method': 'a'}, {'jsonrpc': '2.0', 'id': '1', 'method': 'b', 'params': [1]},
           {'jsonrpc': '2.0', 'id': 1, 'method': 'c'}, {'jsonrpc': '2.0', 'method': 'n'}, {'jsonrpc': '2.0', 'id': 2},
           {'jsonrpc': '2.0', 'id': 2, 'method': 'd', 'params': {}}]
@@ -140,7 +155,8 @@ def show_response(r):
 
 def observe(case):
     if case['t'] == 'parse':
-        base = getattr(pjrpc.exceptions, case['base'])
+        from harness.lib import usererrors
+        base = getattr(pjrpc.exceptions, case['base'], None) or getattr(usererrors, case['base'])
         k, doc = case['kind'], case['doc']
         try:
             if k == 'req':
